@@ -49,6 +49,10 @@ fn byte_fault(p: &Project, rng: &mut Rng, op: &str, file: &str) -> Value {
 }
 
 fn stream_plan(p: &Project, rng: &mut Rng) -> Value {
+    if p.locale_files.is_empty() {
+        // a project without any locale file (namespaces = []): nothing to stream
+        return json!({"kind": "read", "project": p.id, "faults": [], "decoys": false, "codegen": true});
+    }
     let lf = rng.pick(&p.locale_files);
     let len = p.files[&lf.rel].len();
     let n_chunks = rng.below(5);
@@ -266,7 +270,7 @@ pub fn judge(project: &Project, case: &Value, reply: &Value) -> Vec<Violation> {
                 }
                 match variant {
                     "ManifestNotFound" | "ConfigNotPresent" | "ConfigFileDeser" | "DuplicateLocalesInConfig" | "DuplicateNamespacesInConfig" => {
-                        if !manifest_faulted {
+                        if !manifest_faulted && case["adversarial"] != true {
                             out.push(Violation {
                                 invariant: "error_names_file".into(),
                                 signature: format!("{stage}:{variant} although the manifest was not faulted"),
@@ -276,8 +280,9 @@ pub fn judge(project: &Project, case: &Value, reply: &Value) -> Vec<Violation> {
                     }
                     "LocaleFileDeser" | "LocaleFileNotFound" => {
                         // the error must blame a file that was actually touched (or any file when the manifest or
-                        // the locales directory was faulted, since they decide which files are looked for)
-                        if !manifest_faulted && !dir_faulted {
+                        // the locales directory was faulted, since they decide which files are looked for); an
+                        // adversarial project carries its odd value in a file from the start: no fault to blame
+                        if !manifest_faulted && !dir_faulted && case["adversarial"] != true {
                             let raw_paths: Vec<String> = st["paths"].as_array().map(|a| a.iter().filter_map(|p| p.as_str().map(String::from)).collect()).unwrap_or_default();
                             let paths: Vec<String> = raw_paths.iter().map(|p| norm_path(p)).collect();
                             let blamed_touched = paths.iter().any(|p| {
@@ -336,6 +341,18 @@ pub fn account(case: &Value, reply: &Value, faults_fired: &mut BTreeMap<String, 
             *probes.entry("eio_after_complete_document".into()).or_default() += 1;
         }
         return any;
+    }
+    if case["adversarial"] == true {
+        let st = &reply["parse"];
+        let key = match st["status"].as_str().unwrap_or("") {
+            "err" => format!("adversarial_rejected_{}", st["variant"].as_str().unwrap_or("")),
+            s => format!("adversarial_{s}"),
+        };
+        *probes.entry(key).or_default() += 1;
+        if reply["codegen"]["status"] == "ok" {
+            *probes.entry("adversarial_accepted_and_generated".into()).or_default() += 1;
+        }
+        return true;
     }
     let faults = case["faults"].as_array().cloned().unwrap_or_default();
     for (f, fired) in faults.iter().zip(reply["fired"].as_array().cloned().unwrap_or_default()) {
